@@ -119,9 +119,7 @@ func (c *c11Env) emit(pathTerm string, obs string, later bool, desc map[string]i
 	desc["obs"] = obs
 	desc["later_blocks_ok"] = later
 	desc["nt"] = true
-	if tags != nil {
-		desc["tags"] = tags
-	}
+	desc["tags"] = c09Tags(tags)
 	c.w.Add(cApp("mkCase", pathTerm, obs, cBool(later)), desc)
 	c.w.Count("obs=" + obs)
 	c.n++
